@@ -166,8 +166,23 @@ def judge(name, res):
     return out, False
 
 
+def long_names(tier):
+    """names of every length in a range that spans the column widths of the scanner's lists: an entity, an enumeration and a select of that length,
+    each followed by a short one (so that the long name lands in the first column of a two-column list)"""
+    lengths = list(range(60, 100)) + [110, 128, 160, 200] if tier == 'quick' else list(range(1, 140)) + [160, 200, 230]
+    for L in lengths:
+        nm = lambda pre: (pre + 'x' * 300)[:L]
+        e, t1, t2 = nm('ea_'), nm('ta_'), nm('sa_')
+        if len({e, t1, t2}) < 3:
+            e, t1, t2 = 'e' * L + 'a', 't' * L + 'a', 's' * L + 'a'       # very short lengths: keep them distinct
+        yield ('n_len_%d' % L, 'SCHEMA n_len;\nTYPE %s = ENUMERATION OF (r, g); END_TYPE;\nTYPE zt = ENUMERATION OF (p, q); END_TYPE;\n'
+                               'ENTITY %s; c : %s; END_ENTITY;\nENTITY zz SUBTYPE OF (%s); d : zt; END_ENTITY;\nENTITY yy; END_ENTITY;\n'
+                               'TYPE %s = SELECT (%s, zz); END_TYPE;\nTYPE zs = SELECT (zz, yy); END_TYPE;\nEND_SCHEMA;\n' % (t1, e, t1, e, t2, e))
+
+
 def all_programs(tier):
     progs = list(gfam.valid_schemas(tier))
+    progs += list(long_names(tier))
     packed, decls, ent_decl = type_shapes()
     progs += packed
     progs += sorted(NAMING.items())
